@@ -8,6 +8,9 @@ S3 ties (harness/c08_rangecoder.c vs. OpusModel.RangeCoder through Driver.SuiteR
                        decoder run on an exact-size copy of the first `storage` bytes (returned value + state per op)
   rangecoder-tellfrac  ec_tell / ec_tell_frac for l=24..32 x every 16-bit mantissa r x {low bits 0, all ones} x nbits_total
   rangecoder-ilog      EC_ILOG on 2^k-1, 2^k, 2^k+1, 1, 2^32-1 and random values
+  rangecoder-codes     harness/c08_codes.c: ec_laplace_encode/decode and encode_pulses/decode_pulses through the real
+                       range coder, mixed with plain calls (model: OpusModel.RangeCoderCodes): written-back Laplace
+                       values, final encoder state, buffer, every decoded value, final decoder state
 S4 search: the property predicates evaluated on the implementation alone (harness modes `search` / `prop`):
   P1 round trip when the encoder reports no error, P2 tell/tell_frac bounds, monotonicity, range invariant and
   encoder/decoder agreement, P3 guard bytes and bytes beyond the current storage untouched, P4 tell <= 8*storage
@@ -16,13 +19,15 @@ import glob, os, re, subprocess
 import common
 
 LEAN_MODULES = ['OpusProps.C08']
-GEN = []
+GEN = ['CeltTables']   # the PVQ table and LAPLACE_* constants used by laplace_pvq_roundtrip (extractor shared with C17)
 SOURCES = ['celt/entenc.c', 'celt/entdec.c', 'celt/entcode.c', 'celt/entcode.h', 'celt/entenc.h', 'celt/entdec.h',
-           'celt/mfrngcod.h', 'celt/ecintrin.h', 'celt/arch.h']
+           'celt/mfrngcod.h', 'celt/ecintrin.h', 'celt/arch.h', 'celt/laplace.c', 'celt/laplace.h', 'celt/cwrs.c', 'celt/cwrs.h',
+           'celt/quant_bands.c', 'celt/rate.c', 'celt/rate.h', 'celt/modes.c', 'celt/static_modes_float.h',
+           'silk/enc_API.c', 'silk/dec_API.c']
 REQUIRED_THEOREMS = ['OpusProps.C08.rng_normalised', 'OpusProps.C08.tell_frac_bounds', 'OpusProps.C08.tell_frac_formula',
                      'OpusProps.C08.tell_monotone', 'OpusProps.C08.decode_encode', 'OpusProps.C08.lockstep_rng',
                      'OpusProps.C08.decode_encode_patched', 'OpusProps.C08.done_within_budget',
-                     'OpusProps.C08.outside_untouched', 'OpusProps.C08.lockstep_symbols', 'OpusProps.C08.silk_flags_roundtrip']
+                     'OpusProps.C08.outside_untouched', 'OpusProps.C08.lockstep_symbols', 'OpusProps.C08.silk_flags_roundtrip', 'OpusProps.C08.laplace_pvq_roundtrip']
 UNPROVED = []
 RULE = ('op sequences of length 1..4000 over all nine operation kinds (ec_encode, ec_encode_bin, ec_enc_bit_logp, ec_enc_icdf, '
         'ec_enc_icdf16, ec_enc_uint, ec_enc_bits, ec_enc_patch_initial_bits, ec_enc_shrink) drawn from the seed by a '
@@ -68,6 +73,7 @@ TECHNIQUE = 'Lean 4 theorems on an executable range-coder model + state-by-state
 
 QUICK_SEQ, THOROUGH_SEQ = 20000, 300000
 QUICK_SEARCH, THOROUGH_SEARCH = 60000, 1000000
+QUICK_CODES, THOROUGH_CODES = 6000, 120000
 PENDING_FF = 'carry-pending 0xFF'
 
 
@@ -110,6 +116,9 @@ def ties(ctx):
     out.append(_tidy(common.run_tie('rangecoder-seq', [h, 'rand', str(ctx.seed), str(n)])))
     out.append(_tidy(common.run_tie('rangecoder-tellfrac', [h, 'tf', '0' if ctx.quick else '1']), 'rangecoder:tf:table-line'))
     out.append(_tidy(common.run_tie('rangecoder-ilog', [h, 'ilog', str(ctx.seed)]), 'rangecoder:ilog:line'))
+    hc = ctx.harness('c08_codes', ['c08_codes.c'], variant='san')
+    out.append(_tidy(common.run_tie('rangecoder-codes', [hc, 'rand', str(ctx.seed), str(QUICK_CODES if ctx.quick else THOROUGH_CODES)]),
+                     'rangecoder:cseq:line'))
     return out
 
 
@@ -161,10 +170,48 @@ def _tf_witness(tie, mm):
     return None
 
 
+def _codes_witness(tie, mm):
+    """Round-trip predicate on the implementation's own answer for a `cseq` line: every decoded value is the encoded one
+    (Laplace: the value ec_laplace_encode wrote back; pulses: the vector; ec_decode*: inside [fl, fh))."""
+    inp, impl = mm.get('input', ''), mm.get('impl', '')
+    m = re.match(r'rangecoder cseq (\d+) (\d+) (\S+)', inp)
+    a = re.match(r'ok W (\S+) D \S+ B \S+ X (\S+) Y (\S+)', impl)
+    if impl in ('SANITIZER', 'ABORT', 'SIGSEGV'):
+        return {'suite': tie.name, 'input': inp, 'expected': 'legal coding steps run to completion', 'observed': impl,
+                'why': 'sanitizer report / celt_assert while coding or decoding legal Laplace / PVQ steps: '
+                + ' | '.join(mm.get('sanitizer_report', [])[:6])}
+    if not m or not a:
+        return None
+    codes, wb, dec = m.group(3).split(';'), ([] if a.group(1) == '-' else a.group(1).split(',')), a.group(2).split('|')
+    if len(dec) != len(codes):
+        return None
+    wi = 0
+    for k, (c, d) in enumerate(zip(codes, dec)):
+        f = c.split(':')
+        exp = None
+        if f[0] == 'L':
+            exp = 'L' + wb[wi] if wi < len(wb) else None; wi += 1
+        elif f[0] == 'P':
+            exp = 'P' + f[2]
+        elif f[0] in 'lur':
+            exp = 'S' + f[1]
+        elif f[0] in 'eb':
+            if not (d.startswith('S') and int(f[1]) <= int(d[1:]) < int(f[2])):
+                exp = 'S in [%s,%s)' % (f[1], f[2])
+            else:
+                continue
+        if exp is not None and d != exp:
+            return {'suite': tie.name, 'input': inp, 'expected': 'step #%d %s decodes to %s' % (k, c, exp), 'observed': d,
+                    'why': 'ec_enc_done reported no error but the decoder side returned a different value'}
+    return None
+
+
 def classify(ctx, tie, mm):
     inp = mm.get('input', '')
     if tie.name == 'rangecoder-tellfrac':
         return _tf_witness(tie, mm)
+    if tie.name == 'rangecoder-codes':
+        return _codes_witness(tie, mm)
     if tie.name != 'rangecoder-seq' or not inp.startswith('rangecoder seq'):
         return None
     if mm.get('impl') in ('SANITIZER', 'ABORT', 'SIGSEGV'):
